@@ -246,6 +246,36 @@ theorem history_independent (sol : Solver ℝ ns nc) (S : Sys ℝ ns nc) (ops : 
       rw [ih]
     | setClock v => simp only [runHistory, freshSolves]; rw [ih]
     | forward n => simp only [runHistory, freshSolves]; rw [ih]
+    | failed c => simp only [runHistory, freshSolves]; rw [ih]
+
+/-- **error paths are atomic for the property**: a call that raised and was caught (wherever it left the clock)
+changes no later result — the history with the failed call returns what the history without it returns -/
+theorem failed_call_harmless (sol : Solver ℝ ns nc) (S : Sys ℝ ns nc) (pre post : List (Op ℝ ns nc)) (c clk : Nat) :
+    (runHistory sol S (pre ++ .failed c :: post) clk).1 = (runHistory sol S (pre ++ post) clk).1 := by
+  rw [history_independent, history_independent]
+  induction pre with
+  | nil => rfl
+  | cons op pre ih => cases op <;> simp only [List.cons_append, freshSolves, ih]
+
+/-- **copies follow their own law**: an object and its copy (own clock each) used interleaved in any order —
+each returns, solve by solve, what it would return if the other did not exist -/
+theorem copies_independent (sol : Solver ℝ ns nc) (S : Sys ℝ ns nc) (ops : List (Bool × Op ℝ ns nc)) :
+    ∀ c1 c2 : Nat, runTwo sol S ops c1 c2
+      = (freshSolves sol S ((ops.filter fun o => o.1).map Prod.snd), freshSolves sol S ((ops.filter fun o => !o.1).map Prod.snd)) := by
+  induction ops with
+  | nil => intro c1 c2; rfl
+  | cons o rest ih =>
+    intro c1 c2
+    obtain ⟨b, op⟩ := o
+    cases b
+    · simp only [runTwo, ih, List.filter_cons, Bool.false_eq_true, if_false, Bool.not_false, if_true, List.map_cons]
+      have h := history_independent sol S [op] c2
+      rw [h]
+      cases op <;> simp [freshSolves]
+    · simp only [runTwo, ih, List.filter_cons, if_true, Bool.not_true, Bool.false_eq_true, if_false, List.map_cons]
+      have h := history_independent sol S [op] c1
+      rw [h]
+      cases op <;> simp [freshSolves]
 
 /-- the per-call argument `dt` is irrelevant for systems whose linearisation does not depend on time (LTI):
 calls with different `dt` on one object return the same result -/
